@@ -50,6 +50,7 @@ theorem PS_neg (L : List Ev) : ClosedNeg (PS L) where
   wStartTLS := fun s ⟨a, b⟩ => ⟨PA_neg.wStartTLS s a, (sig_skip _ _ (by rw [a.1]; rfl)).trans b⟩
   wOther := fun s id ⟨a, b⟩ => ⟨PA_neg.wOther s id a, (sig_skip _ _ (by rw [a.1]; rfl)).trans b⟩
   choose := fun s ⟨a, b⟩ => ⟨PA_neg.choose s a, b⟩
+  advert := fun s ids ⟨a, b⟩ => ⟨PA_neg.advert s ids a, b⟩
   oracle := fun s o ⟨a, b⟩ => ⟨PA_neg.oracle s o a, b⟩
   neg := fun s m id ⟨a, b⟩ => ⟨PA_neg.neg s m id a, b⟩
   first := fun s ⟨a, b⟩ => ⟨PA_neg.first s a, b⟩
@@ -228,8 +229,11 @@ theorem step_noTLS (cfg : FCfg) (fuel : Nat) (s : Sess) (hs : SecP s) :
   | stop w s' => trivial
   | ok a s2 =>
     dsimp only
-    have hnf := negotiateFeatures_noTLS cfg s2.first { s2 with first := false } hr
-    cases hh : negotiateFeatures cfg s2.first { s2 with first := false } with
+    have hnf := addAdv_both (Pok := fun (out : FOut) _ => out.rw ≠ Rw.tls) (Pstop := fun _ => True)
+      (peekAdv cfg { s2 with first := false }) s2.tls _ (fun a s h => h) (fun s h => h)
+      (negotiateFeatures_noTLS cfg s2.first { s2 with first := false } hr)
+    change (negotiateFeaturesAdv cfg s2.first { s2 with first := false }).Both _ _ at hnf
+    cases hh : negotiateFeaturesAdv cfg s2.first { s2 with first := false } with
     | stop w s' => trivial
     | ok out s3 => rw [hh] at hnf; exact hnf
 
@@ -431,9 +435,14 @@ theorem step_shape (cfg : FCfg) (st0 : Mask) (hc : Compliant cfg st0) (fuel : Na
       dsimp only
       obtain ⟨hcs, hf, _⟩ := he
       rw [hf]
-      have hnf := negotiateFeatures_shape cfg st0 hc [.wHdr false] { s2 with first := false }
-        ⟨⟨hcs.1.st, hcs.1.sec, hcs.1.tls, hcs.1.neg, hcs.1.nco⟩, hcs.2⟩
-      cases hh3 : negotiateFeatures cfg true { s2 with first := false } with
+      have hnf := addAdv_both
+        (Pok := fun (out : FOut) s' => out.rw = .tls ∧ Sec s' ∧ NCO s'.trace ∧ sig s'.trace = [.wStartTLS false, .wHdr false])
+        (Pstop := StopShape [.wHdr false])
+        (peekAdv cfg { s2 with first := false }) s2.tls _ (fun a s h => h) (fun s h => h)
+        (negotiateFeatures_shape cfg st0 hc [.wHdr false] { s2 with first := false }
+          ⟨⟨hcs.1.st, hcs.1.sec, hcs.1.tls, hcs.1.neg, hcs.1.nco⟩, hcs.2⟩)
+      change (negotiateFeaturesAdv cfg true { s2 with first := false }).Both _ _ at hnf
+      cases hh3 : negotiateFeaturesAdv cfg true { s2 with first := false } with
       | stop w s' =>
         rw [hh3] at hnf
         rcases hnf.2 with h | h
@@ -498,7 +507,7 @@ theorem run_shape (cfg : Cfg) (env : Env) (st0 : Mask) (hc : Compliant cfg.toFCf
     have h := loop_shape cfg st0 hc fuel false
       { state := st0, tls := false, hs := false, buf := [], clear := i.clear, prot := i.prot,
         oracle := i.oracle, negotiated := [], doRestart := true, first := true,
-        domain := env.domain, captured := env.captured, sni := env.conn.name, trace := [] }
+        domain := env.domain, captured := env.captured, sni := env.conn.name, features := [], trace := [] }
       (Or.inr ⟨⟨⟨⟨rfl, hs, rfl, rfl, fun e he => (by cases he)⟩, rfl⟩, rfl, rfl⟩, hr⟩)
     obtain ⟨h1, _, h3⟩ := h
     have hrev : ∀ l : List Ev, (l.reverse).filter isSig = (sig l).reverse := by
@@ -527,7 +536,7 @@ theorem run_secure_conn (cfg : Cfg) (env : Env) (st0 : Mask) (hk : env.conn.star
     have h := loop_PS cfg [] fuel false
       { state := st0 ||| Secure, tls := true, hs := false, buf := [], clear := i.clear, prot := i.prot,
         oracle := i.oracle, negotiated := [], doRestart := true, first := true,
-        domain := env.domain, captured := env.captured, sni := env.conn.name, trace := [] }
+        domain := env.domain, captured := env.captured, sni := env.conn.name, features := [], trace := [] }
       ⟨⟨rfl, has_or_self st0 Secure, fun e he => (by cases he)⟩, rfl⟩
     refine ⟨?_, h.2⟩
     have hrev : ∀ l : List Ev, (l.reverse).filter isSig = (sig l).reverse := by
